@@ -367,7 +367,8 @@ theorem versionPart_bal (ts) : Bal (versionPart ts) := by
   unfold versionPart; split
   · exact bal_andThen (skipWs_bal _) fun _ => bal_wrap _ (by decide) (bal_andThen (bump1_bal _) fun _ =>
       bal_andThen (skipWs_bal _) fun _ => bal_andThen (bal_wrap _ (by decide) (constraintLoop_bal _)) fun _ =>
-      bal_andThen (skipWs_bal _) fun _ => bal_andThen (versionTok_bal _) (expect_bal _ _))
+      bal_andThen (skipWs_bal _) fun _ => bal_andThen (versionTok_bal _) fun _ =>
+      bal_andThen (skipWs_bal _) (expect_bal _ _))
   · exact bal_nil ts
 
 theorem archLoop_bal (ts) : Bal (archLoop ts) := by
